@@ -1,9 +1,153 @@
 (* C09 — the same data in different column layouts parses to the same row.
-   Only property theorems here, each closed by [exact] and followed by Print Assumptions. *)
-From Coq Require Import List NArith Bool.
-From RPFT Require Import Base.Sexp Base.PyStr Gen.Tables Cell.Cell Row.Ty Row.Layout Row.RowParse Row.RowUnparse Row.FlowRow Row.RowFacts.
+   Only property theorems here, each closed by [exact] and followed by Print Assumptions.
+   Relations: Row/Encodes.v (EncNv = one cell, Enc = one slot, Encodes = a sheet row);
+   proofs: Row/ParseFold.v, Row/EncodesFacts.v, Row/FlowHeaderFacts.v, Row/EncodesExamples.v. *)
+From Coq Require Import String List NArith ZArith Bool.
+From RPFT Require Import Base.Sexp Base.PyStr Base.Result Base.ODict Gen.Tables Cell.Cell Row.Ty Row.Layout Row.RowParse
+  Row.RowUnparse Row.FlowRow Row.RowFacts Row.ParseFold Row.Encodes Row.EncodesFacts Row.FlowHeaderFacts
+  Row.EncodesExamples.
 Import ListNotations.
 
 Theorem C09_tables_ok : row_tables_ok = true.
 Proof. exact row_tables_ok_true. Qed.
 Print Assumptions C09_tables_ok.
+
+(* 1. every legal way of writing a row value (Encodes: per field spread / packed with either
+      separator / positional / key;value / mixed / `*` columns / short or long flow headers /
+      any interleaving of columns) parses to that value *)
+Theorem C09_encodes_parse : forall rm v cells, Encodes rm v cells -> parse_row rm cells = Ok v.
+Proof. exact encodes_parse. Qed.
+Print Assumptions C09_encodes_parse.
+
+(* 2. hence the parse depends on the data only *)
+Theorem C09_layout_independent : forall rm v c1 c2,
+  Encodes rm v c1 -> Encodes rm v c2 -> parse_row rm c1 = parse_row rm c2.
+Proof. exact layout_independent. Qed.
+Print Assumptions C09_layout_independent.
+
+Example C09_encodes_parse_nonvacuous :
+  Encodes rmR vR cells_spread /\ Encodes rmR vR cells_packed /\ Encodes rmR vR cells_star
+  /\ cells_spread <> cells_packed /\ cells_packed <> cells_star /\ cells_spread <> cells_star
+  /\ parse_row rmR cells_star = Ok vR.
+Proof. exact encodes_parse_nonvacuous. Qed.
+Print Assumptions C09_encodes_parse_nonvacuous.
+
+Example C09_flow_layout_independent_nonvacuous :
+  Encodes flow_row_model flow_value flow_short /\ Encodes flow_row_model flow_value flow_indexed
+  /\ flow_short <> flow_indexed /\ flow_parse flow_short = flow_parse flow_indexed.
+Proof. exact flow_layout_independent_nonvacuous. Qed.
+Print Assumptions C09_flow_layout_independent_nonvacuous.
+
+(* the two projection lemmas all permutation results rest on: the final content of a slot
+   depends only on the subsequence of columns that address it *)
+Theorem C09_fold_model : forall fields h2f f2h cols d,
+  heads_ok fields h2f cols ->
+  (forall k ct, field_ty fields k = Some ct ->
+                exists o, fold_slot ct (sub_key h2f k cols) (slot d k) = Ok o) ->
+  exists d',
+    foldM (fa (TModel fields h2f f2h)) cols (ODict d) = Ok (ODict d')
+    /\ (forall k ct, field_ty fields k = Some ct ->
+                     fold_slot ct (sub_key h2f k cols) (slot d k) = Ok (slot d' k))
+    /\ (forall k, sub_key h2f k cols = [] -> dget d' k = dget d k)
+    /\ (forall k, sub_key h2f k cols <> [] -> dget d' k = Some (slot d' k)).
+Proof. exact fold_model. Qed.
+Print Assumptions C09_fold_model.
+
+Theorem C09_fold_list : forall t cols, is_list_ty t = true -> forall l n,
+  idx_scan (length l) cols = Some n ->
+  (forall i, (i < n)%nat -> exists o, fold_slot (child_ty t) (sub_idx i cols) (nth i l ONone) = Ok o) ->
+  exists l',
+    foldM (fa t) cols (OList l) = Ok (OList l') /\ length l' = n
+    /\ (forall i, (i < n)%nat -> fold_slot (child_ty t) (sub_idx i cols) (nth i l ONone) = Ok (nth i l' ONone)).
+Proof. exact fold_list. Qed.
+Print Assumptions C09_fold_list.
+
+(* 4. short and long flow headers.  Domain of the finite proof: every entry of the regenerated
+      tables cx_basic (short -> long) and cx_sw_table (row type -> main argument field). *)
+Theorem C09_short_long_tables_ok : short_long_ok = true.
+Proof. exact short_long_ok_true. Qed.
+Print Assumptions C09_short_long_tables_ok.
+
+Theorem C09_short_long_headers : forall cells short long,
+  oget str_eqb (cx_basic flow_cx) short = Some long ->
+  ctx_h2f flow_ctx cells short = Ok long /\ ctx_h2f flow_ctx cells long = Ok long.
+Proof. exact short_long_headers. Qed.
+Print Assumptions C09_short_long_headers.
+
+Theorem C09_message_text_header : forall cells rt f,
+  oget str_eqb cells (cx_sw_column flow_cx) = Some rt ->
+  oget str_eqb (cx_sw_table flow_cx) rt = Some f ->
+  ctx_h2f flow_ctx cells (cx_sw_header flow_cx) = Ok f /\ ctx_h2f flow_ctx cells f = Ok f.
+Proof. exact message_text_header. Qed.
+Print Assumptions C09_message_text_header.
+
+(* rows that differ only in the short/long spelling of their headers parse identically —
+   for every row, well-formed or not *)
+Theorem C09_short_long_layouts : forall cells cells',
+  same_row (oget str_eqb cells (cx_sw_column flow_cx)) cells cells' ->
+  flow_parse cells = flow_parse cells'.
+Proof. exact short_long_layouts. Qed.
+Print Assumptions C09_short_long_layouts.
+
+Example C09_short_long_nonvacuous :
+  same_row (oget str_eqb flow_short (cx_sw_column flow_cx)) flow_short flow_long
+  /\ same_row (oget str_eqb flow_short (cx_sw_column flow_cx)) flow_short flow_mixed
+  /\ flow_short <> flow_long
+  /\ is_ok (flow_parse flow_short) = true
+  /\ flow_parse flow_short = flow_parse flow_long.
+Proof. exact short_long_nonvacuous. Qed.
+Print Assumptions C09_short_long_nonvacuous.
+
+Example C09_short_long_headers_nonvacuous :
+  oget str_eqb (cx_basic flow_cx) (S_ "condition_var") = Some (S_ "edges.*.condition.variable")
+  /\ oget str_eqb (cx_basic flow_cx) (S_ "from") = Some (S_ "edges.*.from_")
+  /\ oget str_eqb (cx_sw_table flow_cx) (S_ "send_message") = Some (S_ "mainarg_message_text")
+  /\ cx_sw_header flow_cx = S_ "message_text" /\ cx_sw_column flow_cx = S_ "type".
+Proof. exact short_long_headers_nonvacuous. Qed.
+Print Assumptions C09_short_long_headers_nonvacuous.
+
+(* 5. where layout DOES matter in the faithful model.
+   (a) a positional record of two entries whose first value is a field name is read as ONE
+       key;value pair: the unrestricted claim is refuted, the restricted one holds for all texts *)
+Theorem C09_positional_is_spread_refuted : ~ positional_is_spread_full.
+Proof. exact positional_is_spread_refuted. Qed.
+Print Assumptions C09_positional_is_spread_refuted.
+
+Theorem C09_positional_is_spread_partial : forall a b,
+  plain a = true -> plain b = true -> has_field fieldsAB a = false ->
+  parse_row rmAB (ab_positional a b) = parse_row rmAB (ab_spread a b).
+Proof. exact positional_is_spread_partial. Qed.
+Print Assumptions C09_positional_is_spread_partial.
+
+Example C09_positional_is_spread_nonvacuous :
+  plain (S_ "c") = true /\ plain (S_ "x") = true /\ has_field fieldsAB (S_ "c") = false
+  /\ parse_row rmAB (ab_positional (S_ "c") (S_ "x")) = Ok (rowAB (S_ "c") (S_ "x")).
+Proof. exact positional_is_spread_nonvacuous. Qed.
+Print Assumptions C09_positional_is_spread_nonvacuous.
+
+Example C09_positional_flip_witness :
+  parse_row rmAB (ab_spread (S_ "b") (S_ "x")) = Ok (rowAB (S_ "b") (S_ "x"))
+  /\ parse_row rmAB (ab_positional (S_ "b") (S_ "x")) = Ok (rowAB [] (S_ "x")).
+Proof. exact positional_flip_witness. Qed.
+Print Assumptions C09_positional_flip_witness.
+
+(* (b) the same flip for one entry of a longer positional record *)
+Example C09_positional_entry_flip_witness :
+  parse_row rmTN [(S_ "m.tags.1", S_ "n"); (S_ "m.tags.2", S_ "x"); (S_ "m.n", S_ "foo")] = Ok (rowTN [S_ "n"; S_ "x"] (S_ "foo"))
+  /\ parse_row rmTN [(S_ "m", S_ "n;x|foo")] = Ok (rowTN [] (S_ "foo"))
+  /\ parse_row rmTN [(S_ "m", S_ "q;x|foo")] = Ok (rowTN [S_ "q"; S_ "x"] (S_ "foo")).
+Proof. exact positional_entry_flip_witness. Qed.
+Print Assumptions C09_positional_entry_flip_witness.
+
+(* (c) the short header `message_text` reads the RAW `type` cell: short = long only up to the
+       exact text of that cell, not up to the stripping the `type` field itself enjoys *)
+Theorem C09_short_header_any_padding_refuted : ~ short_header_any_padding_full.
+Proof. exact short_header_any_padding_refuted. Qed.
+Print Assumptions C09_short_header_any_padding_refuted.
+
+Example C09_padded_type_witness :
+  flow_parse flow_padded_short = Err EKey
+  /\ is_ok (flow_parse flow_padded_long) = true
+  /\ flow_parse flow_padded_long = flow_parse flow_unpadded_short.
+Proof. exact padded_type_witness. Qed.
+Print Assumptions C09_padded_type_witness.
